@@ -11,16 +11,12 @@
   executes nothing, no such call; nothing lies between events.  (`C18_flat_exact`, `C18_flat_history`.)
 
   NESTED (`_final_check` of nesting.py, `Model/Final.lean` = the code after fix: commits 919a36b and
-  576f1fd; spec `Model/Spec/C18.lean`).  `C18_nested_exact`: for every state tree, every placement of final
+  576f1fd, 56c10cf; spec `Model/Spec/C18.lean`).  `C18_nested_exact`: for every state tree, every placement of final
   flags and callbacks, every configuration and every entered set a transition can produce, the owners
   whose on_final lists the transition runs are exactly the states that `fires`, children first, the
-  machine last, and the check never raises.  FALSE for the code as it is in one class of inputs (finding
-  F-C18-shared-state-object: "just entered" is recognised by state-OBJECT identity, and one child machine
-  embedded under several states shares its state objects): full statement kept as a `def`,
-  `C18_nested_exact_partial` under the decidable exclusion `noShared`, `C18_nested_exact_distinct_objects`
-  (all machines whose paths are distinct objects), `C18_nested_exact_counterexample(_shared)`.
-  The three defects of the tree before the fixes (DESIGN 6
-  items 10, 11, 18) are kept as regression examples: the model of the repaired code gives the specified
+  machine last, and the check never raises.
+  The defects of the tree before the fixes (DESIGN 6
+  items 10, 11, 18, and object-identity of "just entered") are kept as regression examples: the model of the repaired code gives the specified
   answer on their witnesses; a return of any of them is a VIOLATION (monitor) of the check.
 -/
 import Proofs.C18
@@ -158,42 +154,20 @@ example : ((runHistory reScript (reCfg [2]) 8 3 [.trigger 0 0] (St.init (reCfg [
 
 /-! ## hierarchical machines -/
 
-/-- **C18, nested, FULL STRENGTH** (kept visible; FALSE for the code as it is — see
-`C18_nested_exact_counterexample`): for every state tree, every placement of final flags and
-callbacks, every assignment of state objects to paths, every configuration and every entered set a
-transition can produce (`enteredWF`: the entered states are active afterwards, and below an entered
-state everything active was entered), `_final_check` returns — without raising — exactly the owners
-that fire, children first, the machine last. -/
-def C18_nested_exact : Prop :=
-  ∀ (D : Defs) (E : List Nat) (roots : List Tree), enteredWF E roots = true →
-    finalCheckRoot D E roots = .ok (expected D E roots)
-
-/-- the part that holds: no entered state shares its state OBJECT with another active state
-(`noShared`; always true unless one `HierarchicalMachine` instance is embedded as `children` of several
-states that are active together) -/
-theorem C18_nested_exact_partial (D : Defs) (E : List Nat) (roots : List Tree)
-    (hW : enteredWF E roots = true) (hS : noShared D E roots = true) :
+/-- **C18, nested, full strength**: for every state tree, every placement of final flags and
+callbacks, every configuration and every entered set a transition can produce (`enteredWF`: the
+entered states are active afterwards, and below an entered state everything active was entered),
+`_final_check` returns — without raising — exactly the owners that fire, children first, the machine
+last.  States are paths: two copies of an embedded child machine's state are two states. -/
+theorem C18_nested_exact (D : Defs) (E : List Nat) (roots : List Tree)
+    (hW : enteredWF E roots = true) :
     finalCheckRoot D E roots = .ok (expected D E roots) :=
-  finalCheckRoot_spec D E roots hW hS
-
-/-- in particular the full statement holds for every machine in which distinct paths are distinct
-objects — every machine built from names / dicts / a child machine used once — and for the code with
-proposed_fixes/C18_3.diff (which compares the scope prefix of the enter partial as well, i.e. paths) -/
-theorem C18_nested_exact_distinct_objects (D : Defs) (E : List Nat) (roots : List Tree)
-    (hO : ∀ a b, D.obj a = D.obj b → a = b) (hW : enteredWF E roots = true) :
-    finalCheckRoot D E roots = .ok (expected D E roots) := by
-  refine finalCheckRoot_spec D E roots hW ?_
-  simp only [noShared, List.all_eq_true, Bool.or_eq_true, bne_iff_ne, ne_eq, beq_iff_eq]
-  intro e _ i _
-  by_cases h : D.obj e = D.obj i
-  · exact Or.inr (hO e i h)
-  · exact Or.inl h
+  finalCheckRoot_spec D E roots hW
 
 /-- the callbacks run are those of the owners that fire, in that order -/
-theorem C18_nested_calls (D : Defs) (E : List Nat) (roots : List Tree) (hW : enteredWF E roots = true)
-    (hS : noShared D E roots = true) :
+theorem C18_nested_calls (D : Defs) (E : List Nat) (roots : List Tree) (hW : enteredWF E roots = true) :
     ∃ os, finalCheckRoot D E roots = .ok os ∧ runCalls D os = (expected D E roots).flatMap D.cbsOf :=
-  ⟨_, C18_nested_exact_partial D E roots hW hS, rfl⟩
+  ⟨_, C18_nested_exact D E roots hW, rfl⟩
 
 /-- `expected` is `[s | fires s]`: a state's on_final list is scheduled iff the state is active and fires -/
 theorem C18_nested_owner_iff (D : Defs) (E : List Nat) (roots : List Tree) (i : Nat) :
@@ -257,28 +231,12 @@ example : finalCheckRoot (defsOf [1]) [1, 2] witnessCompound = .ok [.state 1] :=
 example : finalCheckRoot (defsOf [6, 7]) [7] [.node 1 [.node 2 [.node 5 []], .node 3 [.node 6 []], .node 4 [.node 7 []]]]
     = .ok [.state 7, .state 4] := by decide
 
-/-! ### finding F-C18-shared-state-object: witness decided by evaluation
-
-One child machine {work, done (final)} embedded as children of both regions a = 2 and b = 3 of parallel
-P = 1: paths 4 = P_a_done and 5 = P_b_done are the SAME state object (object 4).  b is already in `done`;
-`to_P_a_done` enters 4 only.  The code also takes 5 for "just entered" (same object) and runs on_final of
-`done` and of region b a second time. -/
-
-def sharedDefs : Defs :=
-  { final := fun s => s == 4 || s == 5, onFinal := fun s => [100 + s], machineOnFinal := [100],
-    obj := fun s => if s == 5 then 4 else s }
-def witnessShared : List Tree := [.node 1 [.node 2 [.node 4 []], .node 3 [.node 5 []]]]
-
-example : enteredWF [4] witnessShared = true ∧ noShared sharedDefs [4] witnessShared = false := by decide
-theorem C18_nested_exact_counterexample_shared :
-    finalCheckRoot sharedDefs [4] witnessShared = .ok [.state 4, .state 2, .state 5, .state 3, .state 1, .machine] ∧
-    expected sharedDefs [4] witnessShared = [.state 4, .state 2, .state 1, .machine] := by decide
-
-theorem C18_nested_exact_counterexample : ¬ C18_nested_exact := by
-  intro h
-  have h1 := h sharedDefs [4] witnessShared (by decide)
-  rw [C18_nested_exact_counterexample_shared.1, C18_nested_exact_counterexample_shared.2] at h1
-  exact absurd h1 (by decide)
+/-- regression witness of finding F-C18-shared-state-object (fixed by 56c10cf; corpus
+`shared_state_object_*.json`): one child machine {work, done (final)} under both regions 2, 3 of parallel 1;
+4 = P_a_done and 5 = P_b_done are the same OBJECT but different paths, hence different states here.  b is
+already in `done`; `to_P_a_done` enters 4 only: `done`-under-b and region b are NOT notified again -/
+example : finalCheckRoot (defsOf [4, 5]) [4] [.node 1 [.node 2 [.node 4 []], .node 3 [.node 5 []]]]
+    = .ok [.state 4, .state 2, .state 1, .machine] := by decide
 
 /-! ### non-vacuity -/
 
@@ -287,7 +245,7 @@ B=1, X=2, Y=3, Z=4, yII=5, zII=6; after `final_Z` (enters zII only) Z, B and the
 this order; the hypotheses of the theorems hold -/
 def readme : List Tree := [.node 1 [.node 2 [], .node 3 [.node 5 []], .node 4 [.node 6 []]]]
 
-example : enteredWF [6] readme = true ∧ noShared (defsOf [2, 5, 6]) [6] readme = true ∧ (idsL readme).Nodup := by decide
+example : enteredWF [6] readme = true ∧ (idsL readme).Nodup := by decide
 example : finalCheckRoot (defsOf [2, 5, 6]) [6] readme = .ok [.state 6, .state 4, .state 1, .machine] := by decide
 example : runCalls (defsOf [2, 5, 6]) [.state 6, .state 4, .state 1, .machine] = [106, 104, 101, 100] := by decide
 /-- one step earlier (`final_Y`, zI = 7 still active in Z): only yII and Y fire -/
